@@ -36,7 +36,7 @@ OrderOk(ev) == ("error" \in DOMAIN ev) \/ ev.res.t # "ns" \/ Delivered(ev.res) =
 (* renderer must agree (an internal consistency check of the specification, not of Xalan).         *)
 C02Step(s, ev) ==
   LET hasToks == "toks" \in DOMAIN ev
-      pr == IF ~hasToks THEN Ok(ev.expr, 0) ELSE IF ev.lexok THEN Parse(ev.toks, <<>>) ELSE Fail
+      pr == IF ~hasToks THEN Ok(ev.expr, 0) ELSE IF ev.lexok THEN Parse(ev.toks, ev.nsmap) ELSE Fail
       consistent == ~hasToks \/ "expr" \notin DOMAIN ev \/ (pr.ok /\ pr.ast = ev.expr)
       isErr == "error" \in DOMAIN ev
   IN IF ~consistent
